@@ -400,6 +400,8 @@ class C13(Check):
                     ok = True
                     break
             if not ok:
+                if any(self._same_out(io, nv[n], vm) for nv in model.get("near", [])):
+                    return "TIE: float near-tie (reproduced when every LP optimum is nudged by 1e-10)"
                 if json.dumps(model["outs"][n], sort_keys=True) != json.dumps(model["alt"][n], sort_keys=True):
                     return "TIE: tie-sensitive step resolved in a mixed way"
                 return f"step {n} ({op['k']}): impl {str(io)[:300]} vs model {str(model['outs'][n])[:300]}"
